@@ -38,6 +38,10 @@ pub enum Op {
     /// an older generation of p's interface appears in the directory searched first
     ShadowDir { p: usize, pick: u64 },
     PowerLoss { pick: u64 },
+    /// the top-level dependency pins of p's core are rewritten to the interface hashes the
+    /// dependencies' files in the store carry *now* (or dropped): the most adversarial
+    /// single-field alteration, it makes a stale core look fresh
+    Repin { p: usize, drop: bool },
 }
 
 const DIRS: [&str; 2] = ["store", "store0"];
@@ -653,6 +657,41 @@ impl<'a> World<'a> {
                     }
                 }
             }
+            Op::Repin { p, drop } => {
+                if let Some((path, b)) = self.storage_targets(0, *p, true) {
+                    if self.genuine(&b).is_none() {
+                        return;
+                    }
+                    let Ok(mut doc) = serde_json::from_slice::<Value>(&b) else { return };
+                    let Some(deps) = doc.get("deps").and_then(|d| d.as_object()).cloned() else { return };
+                    let mut changed = false;
+                    for (dep, _) in deps.iter() {
+                        let cur = self
+                            .sb
+                            .read(&format!("store/{dep}.interface"))
+                            .and_then(|ib| serde_json::from_slice::<Value>(&ib).ok())
+                            .and_then(|v| v["interface_hash"].as_str().map(|x| x.to_string()));
+                        if *drop {
+                            if let Some(m) = doc["deps"].as_object_mut() {
+                                m.remove(dep);
+                                changed = true;
+                            }
+                        } else if let Some(h) = cur {
+                            if doc["deps"][dep] != Value::String(h.clone()) {
+                                doc["deps"][dep] = Value::String(h);
+                                changed = true;
+                            }
+                        }
+                    }
+                    if changed {
+                        let text = serde_json::to_string_pretty(&doc).unwrap();
+                        self.sb.write(&path, text.as_bytes());
+                        self.note_corruption(&path, &b, text.as_bytes(), true, format!("field:/deps:{}", if *drop { "pins-dropped" } else { "pins-rewritten-to-current" }));
+                        *self.st.fired.entry("storage:dependency-pins-rewritten".into()).or_insert(0) += 1;
+                        self.st.log.push(format!("repin {path} ({})", if *drop { "pins dropped" } else { "pins rewritten to current hashes" }));
+                    }
+                }
+            }
             Op::PowerLoss { pick } => {
                 let mut pr = Prng::new(*pick);
                 let lw = self.last_written.clone();
@@ -797,12 +836,18 @@ pub fn gen_history(p: &mut Prng, proj: &Project, len: usize, faults_on: &[bool; 
                 3 => Op::StaleRestore { p: pk, core, pick: p.next_u64() },
                 4 => Op::Swap { a: pk, b: p.usize(n), core },
                 5 => Op::PowerLoss { pick: p.next_u64() },
-                6 => Op::FieldCorrupt { dir, p: pk, core: true, pick: p.next_u64() },
+                6 => {
+                    if p.chance(1, 2) {
+                        Op::Repin { p: pk, drop: p.chance(1, 3) }
+                    } else {
+                        Op::FieldCorrupt { dir, p: pk, core: true, pick: p.next_u64() }
+                    }
+                }
                 _ => Op::ShadowDir { p: pk, pick: p.next_u64() },
             }
         };
         // a fault is most interesting right before something reads the file
-        let is_fault = matches!(op, Op::Corrupt { .. } | Op::FieldCorrupt { .. } | Op::ForeignVersion { .. } | Op::StaleRestore { .. } | Op::Swap { .. } | Op::PowerLoss { .. } | Op::ShadowDir { .. });
+        let is_fault = matches!(op, Op::Repin { .. } | Op::Corrupt { .. } | Op::FieldCorrupt { .. } | Op::ForeignVersion { .. } | Op::StaleRestore { .. } | Op::Swap { .. } | Op::PowerLoss { .. } | Op::ShadowDir { .. });
         ops.push(op);
         if is_fault && p.chance(2, 3) {
             if p.chance(1, 2) {
